@@ -208,14 +208,14 @@ def extract_playback(logtext, label=None):
         for v in re.finditer(r"vec!\[([0-9,\s]*)\]", vm.group(1)):
             vals.append([int(x) for x in v.group(1).replace(" ", "").split(",") if x.strip()])
         tests.append((kind, desc, vals))
+    # Kani emits one test per distinct value vector: the counterexample of a failing assertion may be
+    # filed under a cover property with identical values. Candidates, best first.
+    cands = []
     if label:
-        for kind, desc, vals in tests:
-            if kind != "cover" and desc.startswith(label):
-                return vals
-    for kind, desc, vals in tests:
-        if kind != "cover":
-            return vals
-    return None
+        cands += [v for k, d, v in tests if k != "cover" and d.startswith(label)]
+    cands += [v for k, d, v in tests if k != "cover" and v not in cands]
+    cands += [v for k, d, v in tests if k == "cover" and v not in cands]
+    return cands
 
 
 def _tail(out):
@@ -302,6 +302,7 @@ def check(pid, tier, seed, replay_only=None):
                 hard_fail.append("staging of unit %s failed: %s" % (uname, e))
                 continue
             functions += finfo
+            staging.touch_changed(workdir, os.path.join(CACHE, "kani-" + uname))
             tmo = max(h.get("timeout", 120) for h in hs) * (1 if tier == "quick" else 1)
             tmo = max(tmo, max(h.get("timeout_thorough", 0) for h in hs) if tier == "thorough" else 0)
             mem = unit.get("mem_gb", 14 if tier == "quick" else 30)
@@ -422,26 +423,39 @@ def replay_violation(unit, workdir, crate_dir, h, v, pid, tmo, mem):
     txt = open(logpath, errors="replace").read()
     vals = extract_playback(txt, None if v.get("kind") == "panic" else v["label"])
     rp = dict(path=base + ".json", harness=h["name"], label=v["label"], desc=v["desc"], loc=v["loc"])
-    if vals is None:
+    if not vals:
         rp["error"] = "Kani printed no concrete playback"
         json.dump(rp, open(rp["path"], "w"), indent=1)
         return rp
+    cands = vals
+
+    def write_script(val_list):
+        with open(script, "w") as f:
+            f.write("# counterexample for %s / %s (%s)\n# one kani::any() value per line, little-endian bytes, in call order\n" % (h["name"], v["label"], v["desc"]))
+            for val in val_list:
+                f.write(", ".join(str(b) for b in val) + "\n")
+
     script = base + ".script"
-    with open(script, "w") as f:
-        f.write("# counterexample for %s / %s (%s)\n# one kani::any() value per line, little-endian bytes, in call order\n" % (h["name"], v["label"], v["desc"]))
-        for val in vals:
-            f.write(", ".join(str(b) for b in val) + "\n")
+    write_script(cands[0])
     rp["script"] = script
-    rp["values"] = vals
+    rp["values"] = cands[0]
     if unit.get("native") is False or h.get("native") is False:
         rp["not_replayable"] = True
         rp["note"] = h.get("native_note", unit.get("native_note", "no native twin for this harness"))
     else:
-        nat = native_replay(unit, workdir, crate_dir, h["name"], script, release=False)
-        rp["native_dev"] = nat
-        rp["reproduced"] = (nat["failed_label"] == v["label"]) or (nat["failed_label"] in v.get("siblings", [])) or (
-            v.get("kind") == "panic" and nat["rc"] not in (0, 102, 103) and not nat["completed"])
-        if rp["reproduced"] and unit.get("native_release", True):
+        tried = 0
+        for cand in cands[:6]:
+            write_script(cand)
+            nat = native_replay(unit, workdir, crate_dir, h["name"], script, release=False)
+            tried += 1
+            rp["native_dev"] = nat
+            rp["values"] = cand
+            rp["reproduced"] = (nat["failed_label"] == v["label"]) or (nat["failed_label"] in v.get("siblings", [])) or (
+                v.get("kind") == "panic" and nat["rc"] not in (0, 102, 103) and not nat["completed"])
+            if rp["reproduced"]:
+                break
+        rp["candidates_tried"] = tried
+        if rp.get("reproduced") and unit.get("native_release", True):
             rp["native_release"] = native_replay(unit, workdir, crate_dir, h["name"], script, release=True)
     rp["how_to_rerun"] = "cd /verif && ./check %s --replay %s" % (pid, rp["path"])
     json.dump(rp, open(rp["path"], "w"), indent=1)
